@@ -29,13 +29,13 @@ pub fn op_name(o: &Op) -> String {
     }
 }
 
-pub const REFUSALS: [&str; 5] = ["signature-mismatch", "null-pointer", "boolean-on-non-bool", "allocation-exhausted", "mprotect-fails"];
+pub const REFUSALS: [&str; 6] = ["signature-mismatch", "null-pointer", "boolean-on-non-bool", "allocation-exhausted", "mprotect-fails", "mprotect-fails-persistently"];
 
 /// The alphabet, simplest first (so the first counterexample is also the shortest).
 pub fn alphabet_r(with_fs: bool, small: bool, refusals: bool) -> Vec<Op> {
     let mut v = alphabet(with_fs, small);
     if refusals {
-        for k in 0..5 {
+        for k in 0..6 {
             v.push(Op::Refuse(k));
         }
     }
@@ -61,6 +61,8 @@ pub fn alphabet(with_fs: bool, small: bool) -> Vec<Op> {
             Op::Install(T::F1, K::Closure),
             Op::Install(T::B0, K::BoolF),
             Op::Install(T::B1, K::BoolF),
+            Op::Install(T::B0, K::RawA),
+            Op::Install(T::F0, K::FakeTimesUnmet),
             Op::Install(T::G, K::Closure),
             Op::Install(T::A0, K::AsyncV2),
         ]);
@@ -73,6 +75,7 @@ pub fn alphabet(with_fs: bool, small: bool) -> Vec<Op> {
             v.push(Op::Install(T::P1, K::RawA));
             v.push(Op::Install(T::P0, K::RawA));
             v.push(Op::Install(T::PA, K::RawA));
+            v.push(Op::Install(T::TJ, K::RawA));
         }
     }
     v
@@ -212,7 +215,7 @@ impl Ctx<'_> {
         vkit::isolate::set_progress(self.step as u64 | self.phase);
         // 1. behaviour of every target (C02) and of non-targets (C03)
         for &t in ALL_T.iter() {
-            if matches!(t, T::FS | T::TH | T::P0 | T::P1 | T::PA) && !w.with_fs {
+            if matches!(t, T::FS | T::TH | T::P0 | T::P1 | T::PA | T::TJ) && !w.with_fs {
                 continue;
             }
             let got = w.call(t);
@@ -345,9 +348,16 @@ fn refused_install(w: &World, injector: &mut InjectorPP, k: u8) {
             envx::fail_mmap_from(Some(0));
             injector.when_called(inj::func!(f1, fn() -> u32)).will_execute_raw(inj::func!(fk_f1_a, fn() -> u32))
         }
-        _ => {
+        4 => {
             envx::fail_mprotect_at(Some(0));
             injector.when_called(inj::func!(f1, fn() -> u32)).will_execute_raw(inj::func!(fk_f1_a, fn() -> u32))
+        }
+        _ => {
+            // the page of this target (a page of its own) refuses to become writable, now and
+            // while the panic unwinds
+            envx::fail_mprotect_range(Some((RT_ADDR, RT_ADDR + 0x1000)));
+            let rt: fn() -> u32 = unsafe { std::mem::transmute::<usize, fn() -> u32>((RT_ADDR + 0x40) as usize) };
+            injector.when_called(inj::func!(rt, fn() -> u32)).will_execute_raw(inj::func!(fk_f1_a, fn() -> u32))
         }
     }
 }
@@ -401,6 +411,7 @@ pub fn run_history(w: &World, o: &Opts, hist: &[Op]) -> HistResult {
                         let r = catch_unwind(AssertUnwindSafe(|| refused_install(w, &mut injector, k)));
                         envx::fail_mmap_from(None);
                         envx::fail_mprotect_at(None);
+                        // a persistent mprotect failure stays in force until the lifetime is over
                         match r {
                             Ok(()) => {
                                 ctx.viol("C05", &format!("refusal-missing:{}", REFUSALS[k as usize]), format!("an installation that must fail ({}) returned normally", REFUSALS[k as usize]));
@@ -435,19 +446,26 @@ pub fn run_history(w: &World, o: &Opts, hist: &[Op]) -> HistResult {
                 }
             }
         }));
+        let unmet_pending = ctx.model.stacks[T::F0 as usize].contains(&K::FakeTimesUnmet);
         // the lifetime is over (scope exit, unwinding, or end of history)
         vkit::isolate::set_progress(idx as u64 | 0x2000);
         ctx.model.step(&Op::Drop);
         ctx.phase = 0x2000;
         match &r {
+            Ok(_) if unmet_pending => {
+                fnv(&mut ctx.res.digest_api, b"ok");
+                ctx.viol("C06", "scope-exit-silent-although-count-differs", "an injector with an unmet call-count expectation went out of scope normally without panicking".into());
+            }
             Ok(_) => fnv(&mut ctx.res.digest_api, b"ok"),
             Err(p) => {
                 let msg = payload_text(p.as_ref());
                 fnv(&mut ctx.res.digest_api, b"panic");
-                if !msg.starts_with("user panic") && refused.is_none() {
+                let verification = unmet_pending && msg.contains("1000000000");
+                if !msg.starts_with("user panic") && refused.is_none() && !verification {
                     ctx.viol("C05", "unexpected-panic", format!("lifetime ended with a panic the history did not ask for: {msg}"));
                 }
-                if refused == Some(4) {
+                envx::fail_mprotect_range(None);
+                if refused == Some(4) || refused == Some(5) {
                     // an installation that failed in mprotect abandons its trampoline: outside every
                     // given property; give the page back so that later histories start clean
                     envx::forget_owned();
